@@ -10,12 +10,18 @@ AST node kinds (every node has k, line, id):
  continue ret lam call mcall match show print throw assert paren
  watch (C27 marker), and with feature "ext": slit (struct literal) dot (field
  access) letd / ford (tuple destructuring in let / for) try
+ with feature "ext2": dlit (dictionary literal), user-defined methods
+ (prog["meths"], called by mcall), prelude methods and functions (first last
+ is_empty is_non_empty contains concat index_of enumerate map filter is_some
+ is_none or_value / range max min not sort_nums), dictionary methods
 """
 import json
 import random
 
 INT, BOOL, STR, LIST, OPT, ENUM, UNIT = "Int", "Bool", "String", "List<Int>", "Option<Int>", "E1", "Unit"
 STRUCT = "P1"          # struct P1 { x: Int, y: String } (feature "ext")
+DICT = "Dict<Int>"     # feature "ext2"
+RECV_NAME = {INT: "Int", STR: "String", LIST: "List", OPT: "Option", ENUM: "E1", STRUCT: "P1", DICT: "Dict"}
 STR_POOL = ["a", "b", "ab", "x y", "", "q"]
 
 
@@ -33,6 +39,8 @@ class Gen:
         self.uses_struct = False
         self.in_fun = None
         self.has_tracer = False
+        self.meths = []          # {n, recv, this, tt, ps, pt, rt, b, line}  (feature "ext2")
+        self.meth_sigs = {}      # name -> (receiver type, param types, ret type)
 
     # ---- helpers
     def node(self, k, **kw):
@@ -75,6 +83,17 @@ class Gen:
                 return self.paren(self.node("bin", op="^", l=self.expr(STR, scope, d + 1), r=self.expr(STR, scope, d + 1)))
             return self.node("str", v=r.choice(STR_POOL))
         if ty == LIST:
+            if self.features.get("ext2") and d < 2 and r.random() < 0.2:
+                k = r.randint(0, 4)
+                if k == 0:
+                    return self.node("mcall", m="concat", recv=self.expr(LIST, scope, d + 1), args=[self.expr(LIST, scope, d + 1)])
+                if k == 1:
+                    a = r.randint(0, 3)
+                    return self.node("call", f=self.node("var", n="range"), args=[self.node("int", v=a), self.node("int", v=a + r.randint(-1, 4))])
+                if k == 2:
+                    return self.node("call", f=self.node("var", n="sort_nums"), args=[self.expr(LIST, scope, d + 1)])
+                return self.node("mcall", m="map" if k == 3 else "filter", recv=self.expr(LIST, scope, d + 1),
+                                 args=[self.inline_lam(scope, INT if k == 3 else BOOL)])
             v = self.pick_var(scope, LIST)
             c = r.random()
             if v and c < 0.4:
@@ -83,6 +102,13 @@ class Gen:
                 return self.node("mcall", m="append", recv=self.expr(LIST, scope, d + 1), args=[self.int_expr(scope, d + 1)])
             return self.node("list", xs=[self.int_expr(scope, d + 1) for _ in range(r.randint(0, 3))])
         if ty == OPT:
+            if self.features.get("ext2") and d < 2 and r.random() < 0.2:
+                k = r.randint(0, 3)
+                if k == 0:
+                    return self.node("mcall", m=r.choice(["first", "last"]), recv=self.expr(LIST, scope, d + 1), args=[])
+                if k == 1:
+                    return self.node("mcall", m="index_of", recv=self.expr(LIST, scope, d + 1), args=[self.int_expr(scope, d + 1)])
+                return self.node("mcall", m="get", recv=self.expr(DICT, scope, d + 1), args=[self.expr(STR, scope, d + 1)])
             v = self.pick_var(scope, OPT)
             c = r.random()
             if v and c < 0.3:
@@ -105,6 +131,16 @@ class Gen:
             return self.node("ctor", n="B1", args=[self.int_expr(scope, d + 1)])
         if ty == UNIT:
             return self.node("unit")
+        if ty == DICT:
+            v = self.pick_var(scope, DICT)
+            c = r.random()
+            if v and c < 0.35:
+                return self.node("var", n=v)
+            if d < 2 and c < 0.55:
+                return self.node("mcall", m="set", recv=self.expr(DICT, scope, d + 1), args=[self.expr(STR, scope, d + 1), self.int_expr(scope, d + 1)])
+            if d < 2 and c < 0.65:
+                return self.node("mcall", m="remove", recv=self.expr(DICT, scope, d + 1), args=[self.expr(STR, scope, d + 1)])
+            return self.node("dlit", kvs=[{"k": self.expr(STR, scope, d + 2), "v": self.int_expr(scope, d + 1)} for _ in range(r.randint(0, 3))])
         if ty == STRUCT:
             self.uses_struct = True
             v = self.pick_var(scope, STRUCT)
@@ -119,6 +155,21 @@ class Gen:
     def paren(self, e):
         return self.node("paren", e=e)
 
+    def inline_lam(self, scope, rt):
+        """A closure written where it is used (argument of map / filter)."""
+        p = self.fresh("a")
+        inner = scope + [(p, INT)]
+        return self.node("lam", ps=[p], b=[self.expr(rt, inner, 2)], rt=rt)
+
+    def meth_call(self, scope, d, rt):
+        """A call of a user-defined method returning rt, or None."""
+        cands = [n for n, (tt, pt, t) in self.meth_sigs.items() if t == rt and n != self.in_fun]
+        if not cands:
+            return None
+        m = self.r.choice(cands)
+        tt, pt, _ = self.meth_sigs[m]
+        return self.node("mcall", m=m, recv=self.expr(tt, scope, d + 1), args=[self.expr(t, scope, d + 1) for t in pt])
+
     def int_expr(self, scope, d=0):
         r = self.r
         if d < 3 and self.has_tracer and r.random() < self.features.get("tracer", 0.05):
@@ -127,6 +178,19 @@ class Gen:
             return self.node("call", f=self.node("var", n="tr"), args=[self.int_expr(scope, d + 1)])
         if self.features.get("ext") and d < 3 and r.random() < 0.06:
             return self.node("dot", e=self.expr(STRUCT, scope, d + 1), f="x")
+        if self.features.get("ext2") and d < 3 and r.random() < 0.14:
+            k = r.randint(0, 3)
+            if k == 0:
+                mc = self.meth_call(scope, d, INT)
+                if mc:
+                    return mc
+            if k == 1:
+                return self.node("call", f=self.node("var", n=r.choice(["max", "min"])), args=[self.int_expr(scope, d + 1), self.int_expr(scope, d + 1)])
+            if k == 2:
+                return self.node("mcall", m="or_value", recv=self.expr(OPT, scope, d + 1), args=[self.int_expr(scope, d + 1)])
+            mc = self.meth_call(scope, d, INT)
+            if mc:
+                return mc
         c = r.random()
         v = self.pick_var(scope, INT)
         if d >= 3 or c < 0.25:
@@ -174,6 +238,15 @@ class Gen:
             if v and r.random() < 0.5:
                 return self.node("var", n=v)
             return self.node("bool", v=r.random() < 0.5)
+        if self.features.get("ext2") and r.random() < 0.15:
+            k = r.randint(0, 3)
+            if k == 0:
+                return self.node("mcall", m=r.choice(["is_empty", "is_non_empty"]), recv=self.expr(LIST, scope, d + 1), args=[])
+            if k == 1:
+                return self.node("mcall", m="contains", recv=self.expr(LIST, scope, d + 1), args=[self.int_expr(scope, d + 1)])
+            if k == 2:
+                return self.node("mcall", m=r.choice(["is_some", "is_none"]), recv=self.expr(OPT, scope, d + 1), args=[])
+            return self.node("call", f=self.node("var", n="not"), args=[self.bool_expr(scope, d + 1)])
         clos = [n for (n, t) in scope if isinstance(t, tuple) and t[0] == "clo" and t[2] == BOOL]
         if clos and r.random() < 0.3:
             f = r.choice(clos)
@@ -213,6 +286,23 @@ class Gen:
             return self.node("show", e=self.node("call", f=self.node("var", n=f), args=[self.int_expr(scope, 2) for _ in range(len(pt) + 1)]))
         if c == 7:
             return self.node("if", c=self.int_expr(scope, 2), t=[self.node("print", v="t")], f=[], inline=False, **{"else": False})
+        if c == 9 and self.features.get("ext2"):
+            k = r.randint(0, 4)
+            if k == 0 and self.meth_sigs:
+                m = r.choice(sorted(self.meth_sigs))
+                tt, pt, _ = self.meth_sigs[m]
+                return self.node("show", e=self.node("mcall", m=m, recv=self.expr(tt, scope, 2), args=[self.int_expr(scope, 2) for _ in range(len(pt) + 1)]))
+            if k == 1:
+                return self.node("show", e=self.node("mcall", m=r.choice(["first", "is_empty", "items", "is_some"]), recv=self.int_expr(scope, 2), args=[]))
+            if k == 2:
+                return self.node("show", e=self.node("dlit", kvs=[{"k": self.expr(STR, scope, 2), "v": self.int_expr(scope, 2)}, {"k": self.int_expr(scope, 2), "v": self.int_expr(scope, 2)}]))
+            if k == 3 and r.random() < 0.5:
+                self.uses_struct = True
+                fs = r.choice([[("x", INT), ("y", INT)], [("x", STR), ("y", STR)], [("x", INT)], [("x", INT), ("y", STR), ("z", INT)], [("x", INT), ("x", INT), ("y", STR)]])
+                return self.node("show", e=self.node("slit", n="P1", fs=[{"n": n, "e": self.expr(t, scope, 2)} for n, t in fs]))
+            if k == 3:
+                return self.node("show", e=self.node("call", f=self.node("var", n=r.choice(["max", "range"])), args=[self.int_expr(scope, 2), self.expr(STR, scope, 2)]))
+            return self.node("show", e=self.node("mcall", m="get", recv=self.expr(DICT, scope, 2), args=[self.int_expr(scope, 2)]))
         if c == 8 and self.features.get("ext"):
             k = r.randint(0, 2)
             if k == 0:
@@ -269,6 +359,22 @@ class Gen:
                     scope.append((name, INT))
                     return self.node("let", n=name, e=self.node("try", b=body, cb=[self.node("int", v=0)]))
                 return self.node("try", b=body, cb=[self.node("print", v="never")])
+        if self.features.get("ext2") and r.random() < 0.12:
+            k = r.random()
+            if k < 0.35:
+                name = self.fresh("d")
+                e = self.expr(DICT, scope)
+                scope.append((name, DICT))
+                return self.node("let", n=name, e=e)
+            if k < 0.6:
+                return self.node("show", e=self.expr(DICT, scope))
+            if k < 0.75:
+                return self.node("show", e=self.node("mcall", m="items", recv=self.expr(DICT, scope, 1), args=[]))
+            if k < 0.9:
+                return self.node("show", e=self.node("mcall", m="enumerate", recv=self.expr(LIST, scope, 1), args=[]))
+            v = self.pick_var(scope, DICT)
+            if v:
+                return self.node("set", n=v, e=self.expr(DICT, scope))
         c = r.random()
         if c < 0.22:
             ty = r.choice([INT, INT, INT, BOOL, STR, LIST, OPT, ENUM])
@@ -418,6 +524,23 @@ class Gen:
             self.funs.append({"n": "tr", "ps": [x], "pt": [INT], "rt": INT, "line": 0,
                               "b": [self.node("show", e=self.node("var", n=x)), self.node("var", n=x)]})
             self.has_tracer = True
+        if self.features.get("ext2"):
+            for i in range(r.randint(0, 3)):
+                name = f"m{i + 1}"
+                tt = r.choice([INT, STR, LIST, OPT, ENUM, STRUCT, DICT])
+                if tt == ENUM:
+                    self.uses_enum = True
+                if tt == STRUCT:
+                    self.uses_struct = True
+                pt = [INT for _ in range(r.randint(0, 1))]
+                ps = [self.fresh("p") for _ in pt]
+                this = "this" if r.random() < 0.8 else self.fresh("self")
+                scope = [(this, tt)] + list(zip(ps, pt))
+                self.in_fun = name
+                body = self.stmts(scope, r.randint(0, 2), 1, False, INT, None)
+                body.append(self.int_expr(scope, 1))
+                self.meths.append({"n": name, "recv": RECV_NAME[tt], "this": this, "tt": tt, "ps": ps, "pt": pt, "rt": INT, "b": body, "line": 0})
+                self.meth_sigs[name] = (tt, pt, INT)
         nf = r.randint(0, 3)
         for i in range(nf):
             name = f"f{i + 1}"
@@ -448,8 +571,11 @@ class Gen:
             # programs out of session-based checks that are not about that
             main.append(self.node("show", e=self.node("int", v=0)))
         prog = {"id": pid, "funs": self.funs, "main": main, "uses_enum": False, "uses_struct": False}
+        if self.features.get("ext2"):
+            prog["meths"] = self.meths
+            prog["structs"] = [{"n": "P1", "fs": [{"n": "x", "t": "Int"}, {"n": "y", "t": "String"}]}]
         self.fix_lists(prog)
-        for f in prog["funs"]:
+        for f in prog["funs"] + prog.get("meths", []):
             f["b"] = [self.fix_lists(x) for x in self.flat(f["b"])]
         prog["uses_enum"] = self.uses_enum or True
         prog["uses_struct"] = self.uses_struct
@@ -511,6 +637,15 @@ def render_expr(w, e, ind):
     elif k == "dot":
         render_expr(w, e["e"], ind)
         w.w("." + e["f"])
+    elif k == "dlit":
+        w.w("Dict[")
+        for i, kv in enumerate(e["kvs"]):
+            if i:
+                w.w(", ")
+            render_expr(w, kv["k"], ind)
+            w.w(" => ")
+            render_expr(w, kv["v"], ind)
+        w.w("]")
     elif k == "watch":
         # transparent marker (C27): the wrapped node is printed as it is
         render_expr(w, e["e"], ind)
@@ -666,6 +801,7 @@ def render(prog):
         w.w("enum E1 { A1, B1(Int), C1 }\n")
     if prog.get("uses_struct"):
         w.w("struct P1 { x: Int, y: String }\n")
+    render_meths(w, prog)
     for f in prog["funs"]:
         f["line"] = w.line
         params = ", ".join(f"{p}: {t}" for p, t in zip(f["ps"], f["pt"]))
@@ -674,6 +810,15 @@ def render(prog):
         w.w("}\n")
     render_block(w, prog["main"], 0)
     return w.text()
+
+
+def render_meths(w, prog):
+    for m in prog.get("meths", []):
+        m["line"] = w.line
+        params = ", ".join([f"{m['this']}: {m['tt']}"] + [f"{p}: {t}" for p, t in zip(m["ps"], m["pt"])])
+        w.w(f"method {m['n']}({params})" + (f": {m['rt']}" if m["rt"] else "") + " {\n")
+        render_block(w, m["b"], 1)
+        w.w("}\n")
 
 
 def generate(seed, pid, size=12, err_rate=0.25, features=None):
